@@ -158,6 +158,16 @@ def step (n : Node) (ws : List String) : Node × String :=
     | some p, some s =>
       if h = "tcp" then run (.frame (.tcp p) s) else if h = "udp" then run (.frame (.udp p) s) else (n, "bad-op")
     | _, _ => (n, "bad-op")
+  | ["rframe", "icmp", toMe] =>
+    match parseBool toMe with
+    | some t => (n, s!"ret {showBool (n.routerAccepts .icmp t)}")
+    | none => (n, "bad-op")
+  | ["rframe", h, port, toMe] =>
+    match port.toNat?, parseBool toMe with
+    | some p, some t =>
+      if h = "tcp" then (n, s!"ret {showBool (n.routerAccepts (.tcp p) t)}")
+      else if h = "udp" then (n, s!"ret {showBool (n.routerAccepts (.udp p) t)}") else (n, "bad-op")
+    | _, _ => (n, "bad-op")
   | ["dump"] => (n, dump n)
   | _ => (n, "bad-op")
 
